@@ -412,8 +412,8 @@ func (h *harness) reset(blk *block) string {
 		if a.kind != "p" {
 			h.seen[addr] = true // precompiles are observed once the EVM touches them
 		}
-		if a.balance > 0 {
-			adb.AddBalance(addr, big.NewInt(int64(a.balance)))
+		if a.bal().Sign() > 0 {
+			adb.AddBalance(addr, a.bal())
 		}
 		switch a.kind {
 		case "h", "m":
@@ -572,7 +572,7 @@ func (h *harness) runTx(tx *txn) txResult {
 		logs []*types.Log
 		err  error
 	)
-	value := big.NewInt(int64(tx.value))
+	value := tx.val()
 	if tx.create {
 		if h.probe != nil {
 			h.probe.onPre(-1)
